@@ -109,7 +109,7 @@ def forward_kernel(rep, rid, tu, ex):
 def run(rep: core.Report):
     rep.rule("R06a", "inverse kernel: generic element of fc is sum_k Re[D_k e^{i phi}] sqrt(m_i m_j') / N with phi = -2 pi q_k.s averaged over the multi shortest vectors of the pair (supercell atom j, primitive atom i); k runs over N = num_satom/num_patom points", 2)
     rep.rule("R06b", "forward kernel: the contribution of supercell atom k to D_ij is fc e^{+2 pi i q.s} averaged over the same shortest vectors, divided by sqrt(m_i m_j): phase, pair addressing and mass factor are the exact counterparts of the inverse kernel", 4)
-    rep.rule("R06c", "Python reference of the inverse transform: same phase sign, multiplicity average, mass factor, 1/N and real part; Python reference of the forward transform: e^{+2 pi i q.s}/m/sqrt(mm)", 7)
+    rep.rule("R06c", "Python reference of the inverse transform: same phase sign, multiplicity average, mass factor, 1/N and real part; Python reference of the forward transform: e^{+2 pi i q.s}/m/sqrt(mm)", 6)
     rep.rule("R06e", "history independence of the inverse transform: the kernel accumulates into fc (its own zeroing covers only the compact extent), so run() hands it freshly zeroed force constants on every call", 2)
     rep.rule("R06d", "integer commensurate points: meshgrid over range(D_k) of the Smith normal form, each index scaled by the product of the other two diagonal entries, reduced modulo prod(D)", 3)
     tu = cast.load(DYN, symbolize=("PI",))
@@ -179,15 +179,13 @@ def run(rep: core.Report):
                  "forward and inverse transforms do not use conjugate phases over the same shortest vectors: the round trip is not the identity", line=line)
     # ---- Python -----------------------------------------------------------
     sq = core.find_def(D2F, "DynmatToForceConstants._sum_q")
-    core.require_names(sq, ["phases", "phase_factors", "pos", "multi", "adrs", "s_j", "p_i"], f"{D2F}::_sum_q")
+    core.require_names(sq, ["phase_factors", "pos", "multi", "adrs", "s_j", "p_i"], f"{D2F}::_sum_q")
     tr = symalg.OpenPyTranslator(where="_sum_q")
     env = tr.summary(sq)
-    ph = env.get("phases")
-    rep.instance("R06c", D2F, "DynmatToForceConstants._sum_q", "phases = -2j pi comm_points . pos^T", ph is not None and symalg.same(ph, tr.expr(ast.parse("-2j * np.pi * np.dot(self._commensurate_points, pos.T)", mode="eval").body, env))[0],
-                 "the Python inverse transform does not use the phase -2 pi i q.s", line=sq.lineno)
     pf = env.get("phase_factors")
-    rep.instance("R06c", D2F, "DynmatToForceConstants._sum_q", "phase_factors = exp(phases).sum(axis=1) / multi", pf is not None and symalg.same(pf, tr.expr(ast.parse("np.exp(phases).sum(axis=1) / multi", mode="eval").body, env))[0],
-                 "the phase factors are not averaged over the multiplicity", line=sq.lineno)
+    want_pf = tr.expr(ast.parse("np.exp(-2j * np.pi * np.dot(self._commensurate_points, pos.T)).sum(axis=1) / multi", mode="eval").body, env)
+    rep.instance("R06c", D2F, "DynmatToForceConstants._sum_q", "phase_factors = exp(-2j pi comm_points . pos^T).sum(axis=1) / multi", pf is not None and symalg.same(pf, want_pf)[0],
+                 "the Python inverse transform does not use the phase -2 pi i q.s averaged over the multiplicity", line=sq.lineno)
     tup = [st for st in ast.walk(sq) if isinstance(st, ast.Assign) and isinstance(st.targets[0], ast.Tuple) and "self._multi[" in core.src(st.value)]
     ok_pair = len(tup) == 1 and [core.src(t) for t in tup[0].targets[0].elts] == ["multi", "adrs"] and core.src(tup[0].value).replace(" ", "") == "self._multi[s_j,p_i]"
     rep.instance("R06c", D2F, "DynmatToForceConstants._sum_q", "shortest vectors of the pair (supercell atom s_j, primitive atom p_i)", ok_pair, "the pair addressing of the shortest vectors differs from the forward transform (multi[k][i])", line=sq.lineno)
